@@ -879,3 +879,132 @@ Proof.
   change (c_g (sv_sub c n)) with (induced c K) in Hsh. change (c_g (with_g S4 g5)) with g5 in Hv.
   exact (sensitivity_shape_spec c (induced c K) n ord (c_g PC) W g5 Hcl (cb_acyclic _ Hc) (cb_inputs_only _ Hc) Hsub HnS Hsh v Hv).
 Qed.
+
+
+(* the facts about an accepted sensitivity_transform call, packaged *)
+Lemma sv_model_facts C n ord PC T W :
+  comb (c_g C) → pc_inputs (c_g PC) (length ord) →
+  sensitivity_transform C n ord PC = Ok T → clog2 (length ord + 1) = Ok W →
+  let SUB := induced (c_g C) (tfi (c_g C) [n] ∪ {[n]}) in
+  sub_of SUB (c_g C) ∧ n ∈ dom SUB ∧ NoDup ord ∧ inputs SUB = list_to_set ord ∧ sv_shape SUB n ord (c_g PC) W (c_g T).
+Proof.
+  intros Hc Hpc HT HW.
+  destruct (sv_transform_inv _ _ _ _ _ HT) as (Hbb & Hn & Hperm & S1 & g2 & S3 & S4 & W' & g5 & H1 & H2 & H3 & H4 & HW' & H5 & ->).
+  rewrite HW in HW'. injection HW' as <-.
+  set (c := c_g C) in *. set (K := tfi c [n] ∪ {[n]}) in *.
+  pose proof (cb_closed _ Hc) as Hcl.
+  assert (HK : ∀ y i f, c !! y = Some i → y ∈ K → f ∈ n_fi i → f ∈ K).
+  { assert (K = list_to_set [n] ∪ tfi c [n]) as -> by (unfold K; apply set_eq; set_solver). by apply cone_fanin_closed. }
+  assert (Hsub : sub_of (induced c K) c) by (by apply induced_sub_of).
+  assert (HcS : comb (induced c K)) by (by eapply sub_comb).
+  assert (Hnd : NoDup ord) by (rewrite Hperm; apply NoDup_elements).
+  assert (Hin : inputs (induced c K) = list_to_set ord).
+  { rewrite induced_inputs. apply set_eq. intros y. rewrite elem_of_list_to_set, Hperm, elem_of_elements.
+    unfold cone_startpoints. rewrite (comb_startpoints c Hc). unfold K. set_solver. }
+  assert (HnS : n ∈ dom (induced c K)) by (apply induced_dom; split; [unfold K; set_solver|done]).
+  pose proof (sv_model_shape (sv_sub c n) n ord PC S1 g2 S3 S4 W g5 HcS Hnd Hin Hpc H1 H2 H3 H4 H5) as Hsh.
+  done.
+Qed.
+
+(* props.sensitivity on the model's sensitivity circuit: what remains as hypothesis is the certificate of T (closed, acyclic,
+   free nodes = the startpoints), which `holds` checks on every recorded circuit *)
+Theorem sensitivity_model_spec (solve : list (string * bool) → bool) C n ord PC T W w :
+  comb (c_g C) → pc_inputs (c_g PC) (length ord) → popcount_correct (c_g PC) (length ord) W →
+  sensitivity_transform C n ord PC = Ok T →
+  closed (c_g T) → acyclic (c_g T) → free_nodes (c_g T) = list_to_set ord →
+  clog2 (length ord) = Ok w → clog2 (length ord + 1) = Ok W →
+  (∀ k, k ≤ length ord → let asm := asm_of (int_to_bin_le k w) in
+     solve asm = true ↔ ∃ v, consistent (c_g T) v ∧ Forall (λ p : string * bool, v p.1 = p.2) asm) →
+  ∃ k, search solve w (length ord) = Ok k ∧ is_sensitivity (c_g C) n ord k.
+Proof.
+  intros Hc Hpc Hpop HT HclT HacT HfT Hw HW Hsolve.
+  destruct (sv_model_facts C n ord PC T W Hc Hpc HT HW) as (Hsub & HnS & Hnd & Hin & Hsh).
+  destruct (clog2_spec _ _ Hw) as (Hm & _).
+  eapply (sensitivity_spec solve (c_g C) _ n ord (c_g PC) W w (c_g T)); eauto; apply Hc.
+Qed.
+
+
+(* the facts about an accepted sensitization_transform call, packaged: the mitered sub-circuit and the compared set *)
+Definition sens_sub (C : Circuit) (Eo : option (list string)) : circuit * gset string :=
+  match Eo with
+  | Some (e :: l) => let Es : gset string := list_to_set (e :: l) in
+                     (sel_graph (c_g C) Es (Es ∪ tfi (c_g C) (e :: l)), Es)
+  | _ => (c_g C, outputs (c_g C)) end.
+Lemma sens_model_facts C n Eo T :
+  c_bbs C = ∅ → comb (c_g C) → n ∈ dom (c_g C) → sensitization_transform C n Eo = Ok T →
+  let '(SCg, Es) := sens_sub C Eo in
+  sub_of SCg (c_g C) ∧ n ∈ dom SCg ∧ Es ⊆ dom SCg ∧ sens_shape SCg n Es (c_g T).
+Proof.
+  intros Hbb Hc Hn HT. unfold sensitization_transform in HT. rewrite bool_decide_eq_true_2 in HT by done. cbn [negb] in HT.
+  assert (Hnone : ∀ SCx name, rbind (miter_self SCx) (λ M, rbind (flip_node (c_g M) n) (λ g, Ok {| c_name := name; c_g := g; c_bbs := c_bbs M |})) = Ok T →
+            ∃ M, miter_self SCx = Ok M ∧ flip_node (c_g M) n = Ok (c_g T)).
+  { intros SCx name H. destruct (miter_self SCx) as [M| | |] eqn:EM; try done. simpl in H.
+    destruct (flip_node (c_g M) n) as [g| | |] eqn:EF; try done. simpl in H. injection H as <-. eauto. }
+  assert (Hself : sub_of (c_g C) (c_g C)).
+  { split; [|apply Hc]. intros y i Hy. eauto. }
+  assert (Hcase0 : rbind (miter_self C) (λ M, rbind (flip_node (c_g M) n) (λ g, Ok {| c_name := c_name C ++ "_sensitize_" ++ n; c_g := g; c_bbs := c_bbs M |})) = Ok T →
+     sub_of (c_g C) (c_g C) ∧ n ∈ dom (c_g C) ∧ outputs (c_g C) ⊆ dom (c_g C) ∧ sens_shape (c_g C) n (outputs (c_g C)) (c_g T)).
+  { intros H. destruct (Hnone _ _ H) as (M & HM & HF).
+    pose proof (sens_model_shape C n M (c_g T) Hc Hn HM HF) as Hsh. rewrite (comb_endpoints _ Hc) in Hsh.
+    split; [done|]. split; [done|]. split; [|done]. intros y (i & Hi & _)%elem_of_outputs. apply elem_of_dom. eauto. }
+  destruct Eo as [[|e l]|]; cbn [sens_sub]; [by apply Hcase0| |by apply Hcase0].
+  set (eord := e :: l) in *. case_bool_decide as Hnd; cbn [negb] in HT; [|done].
+  destruct (forallb (λ x, bool_decide (x ∈ dom (c_g C))) eord) eqn:Hall; cbn [negb] in HT; [|done].
+  destruct (negb (bool_decide (n ∈ tfi (c_g C) eord)) && negb (bool_decide (n ∈ (list_to_set eord : gset string)))) eqn:Hin; [done|].
+  destruct (has_bb_type _); [done|].
+  set (Es := (list_to_set eord : gset string)) in *. set (K := Es ∪ tfi (c_g C) eord) in *.
+  change (map_imap _ (induced (c_g C) K)) with (sel_graph (c_g C) Es K) in HT.
+  destruct (Hnone _ _ HT) as (M & HM & HF). cbn [c_g] in *.
+  pose proof (cb_closed _ Hc) as Hcl.
+  assert (HEd : Es ⊆ dom (c_g C)).
+  { intros y Hy%elem_of_list_to_set. rewrite forallb_forall in Hall. specialize (Hall y ltac:(by apply elem_of_list_In)).
+    by apply bool_decide_eq_true in Hall. }
+  assert (Hsub : sub_of (sel_graph (c_g C) Es K) (c_g C)) by (apply sel_sub_of; [done|]; by apply cone_fanin_closed).
+  assert (HcS : comb (sel_graph (c_g C) Es K)) by (by eapply sub_comb).
+  assert (HnK : n ∈ K).
+  { apply andb_false_iff in Hin as [H|H]; apply negb_false_iff, bool_decide_eq_true in H; set_solver. }
+  assert (HnS : n ∈ dom (sel_graph (c_g C) Es K)) by (by apply sel_dom).
+  assert (Hout : outputs (sel_graph (c_g C) Es K) = Es) by (apply sel_outputs; [done|set_solver|done]).
+  pose proof (sens_model_shape {| c_name := "circuit"; c_g := sel_graph (c_g C) Es K; c_bbs := ∅ |} n M (c_g T) HcS HnS HM HF) as Hsh.
+  cbn [c_g] in Hsh. rewrite (comb_endpoints _ HcS), Hout in Hsh.
+  split; [done|]. split; [done|]. split; [|done]. intros y Hy. apply sel_dom; [done|]. split; [set_solver|by apply HEd].
+Qed.
+
+(* the specification the props functions need, for the model's sensitization circuit; what remains as hypothesis is the
+   certificate of T (closed, acyclic, free nodes = startpoints = the inputs of the mitered sub-circuit) *)
+Theorem sens_spec_of_model C n Eo T :
+  c_bbs C = ∅ → comb (c_g C) → n ∈ dom (c_g C) → sensitization_transform C n Eo = Ok T →
+  closed (c_g T) → acyclic (c_g T) → free_nodes (c_g T) = startpoints (c_g T) → startpoints (c_g T) = inputs (sens_sub C Eo).1 →
+  sens_spec (c_g C) n (elements (sens_sub C Eo).2) (elements (startpoints (c_g T))) (c_g T).
+Proof.
+  intros Hbb Hc Hn HT HclT HacT HfT HsT. pose proof (sens_model_facts C n Eo T Hbb Hc Hn HT) as H.
+  destruct (sens_sub C Eo) as [SCg Es]. destruct H as (Hsub & HnS & HE & Hsh). cbn [fst snd] in *.
+  eapply sens_spec_of_shape; eauto; apply Hc.
+Qed.
+
+
+(* executable check of `comb` *)
+Definition combb (c : circuit) : bool :=
+  closedb c && acyclicb c && inputs_onlyb c &&
+  forallb (λ p : string * ninfo,
+             (negb (bool_decide (n_ty p.2 = Input)) || bool_decide (n_fi p.2 = ∅)) &&
+             negb (bool_decide (n_ty p.2 = BbIn)) && negb (bool_decide (n_ty p.2 = BbOut))) (map_to_list c).
+Lemma combb_sound c : combb c = true → comb c.
+Proof.
+  unfold combb. intros [[[Hcl Hac]%andb_true_iff Hio]%andb_true_iff Hn]%andb_true_iff.
+  pose proof (map_forallb _ _ Hn) as Hnodes. split.
+  - by apply closedb_spec.
+  - by apply acyclicb_sound.
+  - by apply inputs_onlyb_sound.
+  - intros x i Hx Ht. specialize (Hnodes x i Hx). simpl in Hnodes.
+    apply andb_true_iff in Hnodes as [[H _]%andb_true_iff _]. rewrite Ht, bool_decide_eq_true_2 in H by done.
+    simpl in H. by apply bool_decide_eq_true in H.
+  - intros x i Hx. specialize (Hnodes x i Hx). simpl in Hnodes.
+    apply andb_true_iff in Hnodes as [[_ H1]%andb_true_iff H2].
+    apply negb_true_iff, bool_decide_eq_false in H1. apply negb_true_iff, bool_decide_eq_false in H2. done.
+Qed.
+
+(* "the call is accepted", decided by computation without normalising the result *)
+Definition is_okb {A} (r : res A) : bool := match r with Ok _ => true | _ => false end.
+Lemma is_okb_true {A} (r : res A) : is_okb r = true → ∃ a, r = Ok a.
+Proof. destruct r; try done. eauto. Qed.
